@@ -118,6 +118,7 @@ type input struct {
 	Kind   string   `json:"kind"` // metrics | event | config | rx_metrics | rx_event | raw | concurrent
 	Conc   *concIn  `json:"conc,omitempty"`
 	Tamper *tamperIn `json:"tamper,omitempty"`
+	Prefix *prefixIn `json:"prefix,omitempty"`
 	Raw    *rawIn   `json:"raw,omitempty"`
 	Cfg    cfg      `json:"cfg"`
 	Series []series `json:"series,omitempty"`
@@ -429,6 +430,9 @@ func runOne(em *hlib.Emitter, in input) {
 		return
 	case "tamper":
 		runTamper(em, in)
+		return
+	case "prefix":
+		runPrefix(em, in)
 		return
 	case "config":
 		f, err := newForwarder(in.Cfg, "http://127.0.0.1:1")
@@ -977,7 +981,19 @@ func main() {
 	switch a.Mode {
 	case "gen":
 		r := hlib.NewRand(a.Seed)
-		for n := 0; n < a.N; {
+		n := 0
+		if a.Extra["stream"] == "" && a.N >= 200 {
+			for _, c := range prefixSweep {
+				runOne(em, genPrefixCfg(r, c))
+				n++
+			}
+		}
+		for n < a.N {
+			if a.Extra["stream"] == "prefix" || r.Chance(1, 25) {
+				runOne(em, genPrefix(r))
+				n++
+				continue
+			}
 			if a.Extra["stream"] == "tamper" || r.Chance(1, 14) {
 				for g := r.Range(2, 4); g > 0 && n < a.N; g-- {
 					c := cfg{Compress: !r.Chance(1, 6), CType: hlib.Pick(r, []string{"lz4", "lz4", "lz4", "zlib", "zlib", ""}), Level: r.Range(0, 9)}
